@@ -190,6 +190,9 @@ def explore(fn, on_path=None):
             except RecursionError:
                 raise
             except Exception as e:
+                if isinstance(e, AttributeError) and type(getattr(e, 'obj', None)).__module__.split('.')[0] in ('contracts', 'pysym', 'spec', 'props'):
+                    # the missing attribute belongs to a stand-in object of the checker: the contract no longer fits the code
+                    raise EngineEscape('a stand-in object of the checker (%s) lacks the attribute %r the code now uses' % (type(e.obj).__name__, getattr(e, 'name', '?')))
                 if isinstance(e, (TypeError, AttributeError)):
                     from . import proxies
                     msg = str(e)
